@@ -766,3 +766,51 @@ def rollback_rearm(ctx, rid: str) -> None:
              f"{xt.short} cancels each state's tasks just before that state's exit actions; when an exit action aborts the transition, the states "
              f"later in the exit order were never disarmed, yet rollback re-arms the whole exit set: their after-timers and services run twice",
              cancel_calls[0] if cancel_calls else xt.node)
+
+
+def actor_removal_with_stop(ctx, rid: str) -> None:
+    """A child leaves an ``_actors`` map only together with its stop.
+
+    ``stop()`` reaches descendants through ``_actors`` only, so a child that is removed from the map without
+    being stopped - in particular one that merely *finished* (status done / error) but still owns actors, timers
+    or services of its own - is orphaned: no later ``stop()`` of an ancestor reaches what it created.  For every
+    removal (``del X._actors[k]`` / ``X._actors.pop(k)`` / ``X._actors.clear()``) the same function must contain a
+    ``.stop()`` call that executes whenever the removal does: not in a different ``except`` handler, and not under
+    an additional guard that tests a ``status`` (such a guard skips terminal-but-unstopped children)."""
+    c = ctx.c
+    n = 0
+    for f in ctx.p.funcs_in(*ENGINE_MODULES):
+        removes = []
+        for x in own_nodes(f.node):
+            if isinstance(x, ast.Delete):
+                if any(isinstance(t, ast.Subscript) and norm(t.value).endswith("._actors") for t in x.targets):
+                    removes.append(x)
+            elif isinstance(x, ast.Call) and isinstance(x.func, ast.Attribute) and x.func.attr in ("pop", "clear", "popitem") \
+                    and norm(x.func.value).endswith("._actors"):
+                removes.append(x)
+        if not removes:
+            continue
+        stops = [x for x in own_nodes(f.node) if isinstance(x, ast.Call) and isinstance(x.func, ast.Attribute) and x.func.attr == "stop"]
+        for i, rm in enumerate(removes):
+            n += 1
+            rg = {(norm(a), pol) for a, pol in guards_at(f, rm)}
+            rh = in_handler(f, rm)
+            ok, why = False, "the function contains no .stop() call at all"
+            for s in stops:
+                sh = in_handler(f, s)
+                if sh is not None and sh is not rh:
+                    if "status" not in why:
+                        why = f"the only stop ('{stmt_text(s)}') sits in a different except handler"
+                    continue
+                extra = [(a, pol) for a, pol in ((norm(a), pol) for a, pol in guards_at(f, s)) if (a, pol) not in rg]
+                st = [a for a, _ in extra if ".status" in a]
+                if st:
+                    why = f"the stop is additionally guarded by '{st[0]}': a child that finished on its own (done / error) is removed but not stopped"
+                    continue
+                ok = True
+                break
+            c.ob(rid, ok, f, f"actor-removal-with-stop#{i}",
+                 "the removed child is stopped whenever it is removed" if ok else
+                 f"'{stmt_text(rm)}' removes a child from the actor map, but {why}; whatever that child created (its own actors, timers, services) "
+                 f"can no longer be reached by an ancestor's stop()", rm)
+    c.floor(rid, "removals from an _actors map", n, 4)
